@@ -1439,7 +1439,7 @@ func (lhh *LightHouseHandler) handleHostPunchNotification(n *NebulaMeta, fromVpn
 			continue
 		}
 		b := protoV4AddrPortToNetAddrPort(a)
-		if remoteAllowList.Allow(detailsVpnAddr, b.Addr()) {
+		if remoteAllowList.Allow(detailsVpnAddr, b.Addr()) && !lhh.lh.myVpnNetworksTable.Contains(b.Addr()) {
 			lhh.lh.punchy.Schedule(b, detailsVpnAddr)
 		}
 	}
@@ -1449,7 +1449,7 @@ func (lhh *LightHouseHandler) handleHostPunchNotification(n *NebulaMeta, fromVpn
 			continue
 		}
 		b := protoV6AddrPortToNetAddrPort(a)
-		if remoteAllowList.Allow(detailsVpnAddr, b.Addr()) {
+		if remoteAllowList.Allow(detailsVpnAddr, b.Addr()) && !lhh.lh.myVpnNetworksTable.Contains(b.Addr()) {
 			lhh.lh.punchy.Schedule(b, detailsVpnAddr)
 		}
 	}
